@@ -72,7 +72,14 @@ static void checkAlive(void* p, const char* what)   // G held
 static unsigned long long rs; static bool randomMode;
 static unsigned long long rnd() { rs ^= rs << 13; rs ^= rs >> 7; rs ^= rs << 17; return rs >> 11; }
 
-static void die(const char* why) { fprintf(stderr, "SCHED-INTERNAL %s\n", why); _exit(3); }
+// a run ends through _exit (stale threads): under tools/implcov.py the gcov counters have to be written out first
+#ifdef VERIF_IMPLCOV
+extern "C" void __gcov_dump(void);
+#define IMPLCOV_DUMP() __gcov_dump()
+#else
+#define IMPLCOV_DUMP() ((void)0)
+#endif
+static void die(const char* why) { fprintf(stderr, "SCHED-INTERNAL %s\n", why); IMPLCOV_DUMP(); _exit(3); }
 
 static VMutex* M(void* a)
 {
@@ -156,6 +163,7 @@ static void finish(const char* verdict)
     for(int t = 0; t < nth; ++t) if(th[t].used && !th[t].finished) printf(" %d", t);
   printf("%s\n", flags);
   fflush(stdout);
+  IMPLCOV_DUMP();
   _exit(0);
 }
 
